@@ -1605,6 +1605,71 @@ def run_histories(res, rng, n):
     return len(hs), viol
 
 
+def load_known_all():
+    """known findings of this property from known_findings.jsonl and the builders' known_findings.<x>.jsonl"""
+    import glob
+    out = {}
+    for p in [os.path.join(C.VERIF, "known_findings.jsonl")] + sorted(glob.glob(os.path.join(C.VERIF, "known_findings.*.jsonl"))):
+        if not os.path.exists(p):
+            continue
+        for line in open(p):
+            line = line.strip()
+            if not line or line.startswith("#"):
+                continue
+            j = json.loads(line)
+            if j.get("property") == PROP and not j.get("fixed") and j.get("class"):
+                out[j["class"]] = j
+    return out
+
+
+def run_shapes(res, rng, n_param_calls):
+    """proxied Go methods with every shape of parameter and result list (lib/c08shape.py, harness/cmd/c08shape)
+    -> (evaluated, violations, known hits, stats) or None when the tool does not build"""
+    from lib import c08shape
+    zoo = os.path.join(C.VERIF, "harness", "cmd", "c08shape", "zoo.go")
+    text = c08shape.zoo_source()
+    if not os.path.exists(zoo) or open(zoo).read() != text:
+        with open(zoo, "w") as f:
+            f.write(text)
+    exe, err = C.go_build("c08shape")
+    if not exe:
+        res.violation({"property": PROP, "kind": "harness-build-failed", "stage": "go build c08shape", "log": err[-3000:]}, nofail=True, tag="build")
+        return None
+    cases = c08shape.gen_calls(rng, n_param_calls)
+    p = subprocess.run([exe], input="\n".join(json.dumps({"src": c["src"]}) for c in cases) + "\n", stdout=subprocess.PIPE,
+                       stderr=subprocess.PIPE, universal_newlines=True, timeout=1800)
+    lines = [l for l in p.stdout.split("\n") if l.strip()]
+    if len(lines) != len(cases):
+        res.violation({"property": PROP, "kind": "harness-run-failed", "stage": "c08shape line counts", "got": len(lines), "cases": len(cases),
+                       "stderr": p.stderr[-2000:]}, nofail=True, tag="run")
+        return None
+    known = load_known_all()
+    viol, hits = [], {}
+    stats = {"result_calls": 0, "param_calls": 0, "outcomes": {}, "result_shapes": len(c08shape.result_shapes()),
+             "param_shapes": len(c08shape.param_shapes()), "error_not_last_ok": 0}
+    for c, line in zip(cases, lines):
+        g = json.loads(line)
+        stats["result_calls" if c["kind"] == "result" else "param_calls"] += 1
+        key = c["kind"] + ":" + g.get("outcome", "?")
+        stats["outcomes"][key] = stats["outcomes"].get(key, 0) + 1
+        if c["kind"] == "result" and "E" in c["shape"][:-1] and g.get("outcome") == "ok":
+            stats["error_not_last_ok"] += 1
+        j = c08shape.judge(c, g)
+        if j is None:
+            continue
+        why, cls = j
+        if cls is not None and cls in known:
+            d = hits.setdefault(cls, {"n": 0, "examples": []})
+            d["n"] += 1
+            if len(d["examples"]) < 3:
+                d["examples"].append({"script": c["src"], "why": why})
+        else:
+            viol.append({"property": PROP, "kind": "oracle-violation", "aspect": "method-shape", "why": why, "case_kind": "shape:" + c["kind"],
+                         "script": c["src"], "shape_case": {k: v for k, v in c.items()}, "impl": g,
+                         "globals": "z = &Zoo{}, zv = ZooV{}, zp = &ZooV{}, ze = &ZooE{Zoo: &Zoo{}}, pt = &Pt{X: 3}; methods: harness/cmd/c08shape/zoo.go"})
+    return len(cases), viol, hits, stats
+
+
 def run(res):
     obs, err = C.go_build("c08obs")
     if not obs:
@@ -1720,6 +1785,24 @@ def body(res, obs, model, work, proved):
     if hviol is None:
         return
     oracle_viol += hviol
+    sh = run_shapes(res, rng, 700 if res.tier == "quick" else 12000)
+    if sh is None:
+        return
+    ns, sviol, shits, sstats = sh
+    oracle_viol += sviol
+    for cls, d in shits.items():
+        known.setdefault(cls, load_known_all()[cls])
+        kd = known_hits.setdefault(cls, {"n": 0, "examples": []})
+        kd["n"] += d["n"]
+        kd["examples"] += d["examples"][:max(0, 3 - len(kd["examples"]))]
+    cov["method_shapes"] = dict(sstats, what="proxied Go methods whose behaviour is determined by their name (generated zoo): every result list of "
+                                "0-3 results over int, string, error, any, *struct, []int, map[string]int, float64, bool, uint8, struct (and some of 4-5) "
+                                "with `error` at any position and several errors, every combination of errors set / nilable results nil; "
+                                "parameter lists of 0-3 parameters over int, string, any, []int, *struct, float64, bool with context.Context first "
+                                "and variadic tails, called with exact arguments, one argument of a wrong kind, one missing, one too many; pointer "
+                                "receivers, value receivers (by value and by pointer), methods promoted from an embedded pointer. Oracle from the name "
+                                "and the arguments alone: the script gets what Go returns (none: nil, one: the value, several: the list) or the "
+                                "error that is set; a method receives exactly the representable arguments; never a panic")
     nr, rviol, rhits, rstats = run_reuse(res, obs, rng, 1500 if res.tier == "quick" else 25000, work, known)
     oracle_viol += [v for v in rviol if v.get("kind") == "oracle-violation"]
     corr += [{"stage": v.get("stage"), "impl": v} for v in rviol if v.get("kind") != "oracle-violation"]
@@ -1736,7 +1819,7 @@ def body(res, obs, model, work, proved):
     cov["histories"] = {"evaluated": nh, "what": "script-side reads / writes through pointer, interface and struct-valued fields of one proxied "
                         "struct interleaved with Go-side replacements of those fields (methods), references kept by the script; expected "
                         "observations from a reference model of Go's pointer semantics (checks/c08.py model_history)"}
-    cov["evaluations"] = len(keep) + nh + nr
+    cov["evaluations"] = len(keep) + nh + nr + ns
     cov["distinct_nontrivial"] = len(nontrivial)
     cov["rule"] = ("%d cases: Go types built with reflect (StructOf/SliceOf/ArrayOf/MapOf/PointerTo) to depth 3 over bool, all sized "
                    "ints/uints, floats, string, byte, time.Time, interface{} and a zoo of 16 declared named types, values incl. zero, nil, "
@@ -1744,7 +1827,8 @@ def body(res, obs, model, work, proved):
                    "literals / from other Go values and read back (Go-side struct state and script-side value), as arguments and results of a "
                    "zoo of 55 methods; every evaluation under recover; each observation compared with the extracted Gallina model and judged by "
                    "an independent oracle (documented widening, read-back, exact arguments); plus histories over one proxied struct and "
-                   "sequences of evaluations on one reused VM that pass the same-named global again (coverage.reuse_sequences). Non-trivial = distinct set/call cases that "
+                   "sequences of evaluations on one reused VM that pass the same-named global again (coverage.reuse_sequences), plus a generated zoo of methods "
+                   "with every shape of parameter and result list (coverage.method_shapes). Non-trivial = distinct set/call cases that "
                    "succeeded plus global/field cases of compound types." % len(keep))
     cov["samples"] = samples
     cov["correspondence"] = {"differences": len(corr), "stats": stats}
@@ -1781,6 +1865,17 @@ def replay(data):
     if not obs:
         print(err)
         return 2
+    if data.get("shape_case"):
+        exe, err = C.go_build("c08shape")
+        if not exe:
+            print(err)
+            return 2
+        p = subprocess.run([exe], input=(json.dumps({"src": data["script"]}) + "\n").encode(), stdout=subprocess.PIPE)
+        print("implementation now: " + p.stdout.decode())
+        from lib import c08shape
+        j = c08shape.judge(data["shape_case"], json.loads(p.stdout.decode()))
+        print("oracle: %s" % (j[0] if j else "ok"))
+        return 1 if j and j[1] is None else 0
     line = data.get("go_case") or (data.get("first_difference") or {}).get("go_case")
     if line:
         p = subprocess.run([obs], input=(line + "\n").encode(), stdout=subprocess.PIPE)
